@@ -22,14 +22,6 @@ theorem wsub_eq (n a b : Nat) : wsub n a b = (a + 2^n - b % 2^n) % 2^n := rfl
 
 theorem wsub_lt (n a b : Nat) : wsub n a b < 2^n := Nat.mod_lt _ (two_pow_pos' n)
 
-theorem mod_two {x T : Nat} (h : x < 2 * T) : x % T = if x < T then x else x - T := by
-  split
-  · next h1 => exact Nat.mod_eq_of_lt h1
-  · next h1 =>
-    have h2 : x ≥ T := Nat.le_of_not_lt h1
-    have h3 : x - T < T := by omega
-    rw [Nat.mod_eq_sub_mod h2]; exact Nat.mod_eq_of_lt h3
-
 /-- `b + (a ⊖ b) ≡ a` -/
 theorem wsub_add {n a b : Nat} (ha : a < 2^n) (hb : b < 2^n) : (b + wsub n a b) % 2^n = a := by
   rw [wsub_eq, Nat.mod_eq_of_lt hb]
